@@ -193,7 +193,7 @@ contract(
         "'H' in res.map and 'HA2' in res.map and len(res.atoms) == 5",
         "same_xyz(n, old(n)) and same_xyz(ca, old(ca)) and same_xyz(c, old(c)) and same_xyz(prev_c, old(prev_c))",
         "res.atoms[0] is n and res.atoms[1] is ca and res.atoms[2] is c",
-        "len(calls_of('find_coordinates')) == 2 and len(calls_of('rebuild_tetrahedral')) == 2",
+        "len(calls_of('find_coordinates')) == 2",
         "call_ok_h(calls_of('find_coordinates')[0], res, 'H', prev_c) and at(calls_of('find_coordinates')[0].ret, res.map['H'])",
         "call_ok_h(calls_of('find_coordinates')[1], res, 'HA2', prev_c) and at(calls_of('find_coordinates')[1].ret, res.map['HA2'])",
     ],
